@@ -518,7 +518,7 @@ func run(c Case, ev *pbt.Ev) error {
 }
 
 func TestProp_Convert(t *testing.T) {
-	pbt.Run(t, pbt.Options{Prop: "C19", Name: "Convert", Quick: 700, Thorough: 2800, Current: true, Timeout: 240 * time.Second,
+	pbt.Run(t, pbt.Options{Prop: "C19", Name: "Convert", Quick: 700, Thorough: 2100, Current: true, Timeout: 240 * time.Second,
 		Rule: "rapid: 1-5 source layers (generated archives; uncompressed / gzip / zstd / already eStargz; OCI or Docker media types; optional per-layer options; with or without the labels of an unpacked layer) in containerd's local content store, converted by one converter instance {estargz, zstd:chunked, external TOC, external TOC lossless} sequentially or all in parallel, optionally after an interrupted first attempt on the same writer ref; " +
 			"oracle: reads the committed blobs back: digest and size of the descriptor, stdlib decompression -> uncompressed-size annotation and containerd.io/uncompressed label, media type vs. magic bytes, independent TOC parse verifying every chunk under the annotated TOC digest, zstd:chunked position/checksum annotations vs. the footer, TOC image mapping every converted layer to a TOC that verifies it, lossless DiffID. " +
 			"non-trivial = >= 2 layers converted in parallel, a zstd/uncompressed source, or a retried conversion. Run under the race detector in the thorough tier.",
